@@ -558,7 +558,8 @@ func newSSAStyleFromString(content string, format map[int]string) (s *ssaStyle, 
 		// Bool
 		case ssaStyleFormatNameBold, ssaStyleFormatNameItalic, ssaStyleFormatNameStrikeout,
 			ssaStyleFormatNameUnderline:
-			var b = item == "-1"
+			// -1 is the documented value for true, but 1 is what this package wrote until now
+			var b = item == "-1" || item == "1"
 			switch attr {
 			case ssaStyleFormatNameBold:
 				s.bold = astikit.BoolPtr(b)
